@@ -4,6 +4,7 @@ import (
 	"fmt"
 	"math/rand"
 	"runtime"
+	"runtime/debug"
 	"strings"
 	"sync"
 	"time"
@@ -212,8 +213,113 @@ func c08Scenario(id string, kind, producers, consumers, opsEach int, long bool, 
 	}}
 }
 
+// c08Burst: phased backlogs far above any plausible internal bound (node free lists, pools): rounds of
+// {all producers offer, join, all consumers remove until empty, join, quiescent probes: removal on the empty
+// structure must report empty, one value goes through alone}. Everything is recorded in one history.
+func c08Burst(id string, kind, workers, backlog, rounds int, seed int64) core.Scenario {
+	return core.Scenario{ID: id, Class: "ConcurrentQueue/Stack", Run: func(c *core.Ctx) {
+		old := debug.SetGCPercent(-1) // keep recycled nodes in whatever pool the structure uses
+		defer debug.SetGCPercent(old)
+		tg := c08MakeTarget(kind)
+		rec := hist.NewRecorder(workers + 1)
+		var pmu sync.Mutex
+		panics := map[string]string{}
+		guard := func(proc int, fn func()) {
+			defer func() {
+				if r := recover(); r != nil {
+					pmu.Lock()
+					panics[core.NormalizePanic(fmt.Sprint(r))+"@"+core.TopRepoFrame(3)] = fmt.Sprintf("proc %d: %v", proc, r)
+					pmu.Unlock()
+				}
+			}()
+			fn()
+		}
+		seqs := make([]int, workers+1)
+		rep := map[string]any{"scenario": id, "target": tg.name, "backlog": backlog, "rounds": rounds}
+		for r := 0; r < rounds && len(panics) == 0; r++ {
+			var wg sync.WaitGroup
+			for p := 0; p < workers; p++ {
+				wg.Add(1)
+				go func(p int) {
+					defer wg.Done()
+					for k := 0; k < backlog/workers; k++ {
+						guard(p, func() {
+							seqs[p]++
+							v := hist.Value(p+1, seqs[p])
+							i := rec.Begin(p, "offer", v)
+							err := tg.offer(v, k%2 == 0)
+							rec.End(p, i, 0, resOf(err))
+						})
+					}
+				}(p)
+			}
+			wg.Wait()
+			for p := 0; p < workers; p++ {
+				wg.Add(1)
+				go func(p int) {
+					defer wg.Done()
+					for k := 0; k < backlog+4; k++ {
+						empty := false
+						guard(p, func() {
+							i := rec.Begin(p, "take", 0)
+							v, err := tg.take(k%2 == 0)
+							rec.End(p, i, v, resOf(err))
+							empty = err != nil
+						})
+						if empty {
+							return
+						}
+					}
+				}(p)
+			}
+			wg.Wait()
+			// quiescent probes
+			guard(workers, func() {
+				i := rec.Begin(workers, "take", 0)
+				v, err := tg.take(false)
+				rec.End(workers, i, v, resOf(err))
+				if err == nil {
+					c.Violationf("burst:removal-on-drained-structure-returns-a-value", rep, "%s: round %d: after the backlog of %d was removed completely a removal returned %d instead of reporting empty", tg.name, r, backlog, v)
+				}
+				seqs[workers]++
+				v1 := hist.Value(workers+1, seqs[workers])
+				i = rec.Begin(workers, "offer", v1)
+				err = tg.offer(v1, false)
+				rec.End(workers, i, 0, resOf(err))
+				i = rec.Begin(workers, "take", 0)
+				v, err = tg.take(false)
+				rec.End(workers, i, v, resOf(err))
+				if err != nil || v != v1 {
+					c.Violationf("burst:single-value-through-quiescent-structure", rep, "%s: round %d: one value offered to the drained structure came back as (%d, %v)", tg.name, r, v, err)
+				}
+			})
+		}
+		ops := rec.Ops()
+		c.Eval(1)
+		c.Count("ops", int64(len(ops)))
+		c.CountMax("max.backlog", int64(backlog))
+		c.Distinct(id)
+		for k, v := range panics {
+			c.Violationf("panic:"+k, rep, "%s: a call panicked: %s", tg.name, v)
+		}
+		for class, msg := range hist.ExactlyOnce(ops, len(panics) == 0, tg.model != hist.LIFO) {
+			c.Violationf("history:"+class, rep, "%s: %s", tg.name, msg)
+		}
+	}}
+}
+
 func c08Scenarios(c *core.Ctx, race bool) []core.Scenario {
 	var out []core.Scenario
+	for i, bl := range []int{1100, 2100, 3000, 4200, 12000} {
+		if race && i > 1 {
+			break
+		}
+		for _, kind := range []int{0, 1, 3} {
+			for _, w := range []int{1, 4} {
+				out = append(out, c08Burst(fmt.Sprintf("burst-k%d-w%d-n%d-race%v", kind, w, bl, race), kind, w, bl, c.Pick(4, 8), c.Seed+int64(i)))
+			}
+		}
+	}
 	sizes := []int{1, 2, 4, 8, 16}
 	nShort := c.Pick(3000, 100000)
 	nLong := c.Pick(20, 200)
@@ -260,7 +366,7 @@ func init() {
 		Meta: func(c *core.Ctx) core.Meta {
 			return core.Meta{
 				Level: "exploration",
-				Rule:  "concurrent histories recorded at the client boundary (call before / return after, one monotonic clock, unique values = producer<<32|seq) against ConcurrentQueue and ConcurrentStack wrapping LinkedListQueue, ChannelQueue(3) (Offer/Poll) and a harness-provided non-thread-safe slice queue/stack; 1..16 producers x 1..16 consumers, PRNG yields; short histories (<= 40 ops, mixed roles) are checked for linearizability with porcupine against FIFO / LIFO / BoundedFIFO models after a single-threaded drain; long runs by the exactly-once / no-invention / per-producer-order checker; every call under recover; the same workload repeated in the -race build (deciding). distinct_nontrivial = distinct scenarios (workload seeds)",
+				Rule:  "concurrent histories recorded at the client boundary (call before / return after, one monotonic clock, unique values = producer<<32|seq) against ConcurrentQueue and ConcurrentStack wrapping LinkedListQueue, ChannelQueue(3) (Offer/Poll) and a harness-provided non-thread-safe slice queue/stack; 1..16 producers x 1..16 consumers, PRNG yields; short histories (<= 40 ops, mixed roles) are checked for linearizability with porcupine against FIFO / LIFO / BoundedFIFO models after a single-threaded drain; long runs by the exactly-once / no-invention / per-producer-order checker; phased bursts (backlogs 1100..12000 built by 1 or 4 producers, removed completely by 1 or 4 consumers, then quiescent probes, 4-8 rounds, GC paused so that recycled nodes stay pooled); every call under recover; the same workload repeated in the -race build (deciding). distinct_nontrivial = distinct scenarios (workload seeds)",
 				Assumptions: []string{"a race report inside the wrapped structure or the wrapper refutes the property (the baseline wrapper is expected to serialise every access)",
 					"ChannelQueue is wrapped through Offer/Poll only (its blocking Put/Take under the wrapper's lock are documented as blocking)"},
 			}
